@@ -54,6 +54,8 @@ def run(prop, tier, *, tags=None, norm=False, opts=None, specs=None, extra=None)
         def small(sp):
             return len(sp) <= 4 and sum(1 for nd in sp if nd["kind"] in e2.TIMED) <= 3
         pops = [(n, s) for n, s in specs if isinstance(n, str) and (n in e2fam.POPS_QUICK if tier == "quick" else (n != "fam3" and small(s)))]
+        if opts.get("dry"):
+            pops = []  # the dry-run twin oracle is evaluated on default-order runs only
         specs += [((n, {"pops": True, "fail_combos": "few"}), s) for n, s in pops]
         if tier != "quick":
             specs += [((n, {"pops": True, "order": "sources-first", "fail_combos": "few"}), s) for n, s in pops
